@@ -140,6 +140,7 @@ type inputGen struct {
 	ti    terminfo.Terminfo
 	table map[string][2]int
 	seqs  []string
+	cp    terminfo.Terminfo // the entry as the screen edited it
 	mouse bool
 	clip  bool
 	paste bool
@@ -147,7 +148,17 @@ type inputGen struct {
 
 func (g *inputGen) tok() token {
 	r := g.rng
-	switch k := r.Intn(22); {
+	switch k := r.Intn(24); {
+	case k >= 22:
+		// the tail of a report without its introducer, at times with a byte that belongs to no report inside:
+		// plain text, whatever stands before it
+		tails := []string{"[<0;5;7M", "<0;5;7M", "[<;;M", "[<35;1;1m", "[M !!", "[I", "[O", "[200~", "[201~", "]52;c;QUJD\a", "OP", "[A", "[1;5A", ";5;7M"}
+		t := []byte(tails[r.Intn(len(tails))])
+		if r.Intn(2) == 0 {
+			at := r.Intn(len(t) + 1)
+			t = append(t[:at:at], append([]byte{"aZ ~x"[r.Intn(5)]}, t[at:]...)...)
+		}
+		return token{"tail", t}
 	case k < 6 && len(g.seqs) > 0:
 		return token{"key", []byte(g.seqs[r.Intn(len(g.seqs))])}
 	case k < 8 && len(g.seqs) > 0: // Alt-prefixed key
@@ -160,7 +171,7 @@ func (g *inputGen) tok() token {
 		runesl := []rune{'a', 'Z', '~', ' ', 0xe9, 0x3b1, 0x4e16, 0x1f600, 0x7ff, 0x800, 0xffff, 0x10000}
 		return token{"text", []byte(string(runesl[r.Intn(len(runesl))]))}
 	case k < 11:
-		return token{"alttext", append([]byte{0x1b}, []byte(string([]rune{'x', 'Q', 0xe9}[r.Intn(3)]))...)}
+		return token{"alttext", append([]byte{0x1b}, []byte(string([]rune{'x', 'Q', 0xe9, '[', 'O', ']', '<', 'a'}[r.Intn(8)]))...)}
 	case k < 13 && g.mouse:
 		fin := "M"
 		if r.Intn(3) == 0 {
@@ -221,7 +232,7 @@ func (g *inputGen) ambiguous(toks []token) bool {
 			return true
 		}
 		// the built-in report formats share the CSI prefix with table keys (e.g. rxvt ESC [ O a vs focus-out)
-		for _, pre := range []string{"\x1b[I", "\x1b[O", "\x1b[M", "\x1b[<"} {
+		for _, pre := range []string{"\x1b[I", "\x1b[O", "\x1b[M", "\x1b[<", "\x1b]52;c;"} {
 			if string(t.b) != pre && strings.HasPrefix(pre, string(t.b)) && len(pre) <= len(rest) && string(rest[:len(pre)]) == pre {
 				return true
 			}
@@ -326,7 +337,7 @@ func newGen(rng *rand.Rand, name string) (*inputGen, error) {
 	if err != nil {
 		return nil, err
 	}
-	g := &inputGen{rng: rng, ti: ti, table: vp.KeyTable()}
+	g := &inputGen{rng: rng, ti: ti, cp: cp, table: vp.KeyTable()}
 	for _, s := range sortedKeys(g.table) {
 		if s != "\x1b" {
 			g.seqs = append(g.seqs, s)
@@ -336,6 +347,30 @@ func newGen(rng *rand.Rand, name string) (*inputGen, error) {
 	g.clip = cp.XTermLike
 	g.paste = ti.EnablePaste != "" || ti.Mouse != "" || cp.XTermLike
 	return g, nil
+}
+
+// chunkConfig describes the terminal's input language for the tokenizer model: the key table (restricted to the
+// sequences over alphabet, when one is given), whether mouse reports and OSC 52 replies are recognised, and the
+// key codes that stand for the paste brackets.
+func (g *inputGen) chunkConfig(name string, alphabet []byte) trace.Ev {
+	keys := []interface{}{}
+	ps, pe := -1, -2
+	for _, s := range sortedKeys(g.table) {
+		v := g.table[s]
+		if v[0] >= 16384 { // the internal key codes of the paste brackets: start, then end
+			if ps < 0 || v[0] < ps {
+				ps = v[0]
+			}
+			if v[0] > pe {
+				pe = v[0]
+			}
+		}
+		if s == "\x1b" || (alphabet != nil && strings.Trim(s, string(alphabet)) != "") {
+			continue
+		}
+		keys = append(keys, []interface{}{trace.Ints([]byte(s)), v[0], v[1]})
+	}
+	return trace.Ev{"ev": "Config", "term": name, "mode": "chunk", "keys": keys, "mouse": g.mouse, "clip": g.clip, "ps": ps, "pe": pe}
 }
 
 func runEvent(kind string, id int, b []byte, cuts []int, r decodeResult) trace.Ev {
@@ -355,7 +390,7 @@ func inputChunk(tw *trace.Writer, rng *rand.Rand, names []string, n int, exh boo
 			return err
 		}
 		tw.Emit(trace.Ev{"ev": "Reset"})
-		tw.Emit(trace.Ev{"ev": "Config", "term": name, "mode": "chunk"})
+		tw.Emit(g.chunkConfig(name, nil))
 		for i := 0; i < n; i++ {
 			id := strs
 			strs++
@@ -376,6 +411,12 @@ func inputChunk(tw *trace.Writer, rng *rand.Rand, names []string, n int, exh boo
 				for try := 0; try < 20; try++ {
 					toks = toks[:0]
 					nt := 1 + rng.Intn(4)
+					if rng.Intn(5) == 0 {
+						// an Alt-prefixed character right before a report tail: nothing of it may be swallowed
+						c := []byte{'x', 'O', 'a', '[', 0x14, '~'}[rng.Intn(6)]
+						tail := []string{"[<0;5;7M", "[<;;M", "<0;5;7M", "[<35;1x;1m", "[M !!", "[ <1;2;3M", "[I"}[rng.Intn(7)]
+						toks = append(toks, token{"alttext", []byte{0x1b, c}}, token{"tail", []byte(tail)})
+					}
 					for k := 0; k < nt; k++ {
 						toks = append(toks, g.tok())
 					}
@@ -434,7 +475,11 @@ func inputAlpha(tw *trace.Writer, maxLen int, st map[string]interface{}) error {
 	for _, name := range []string{"rxvt", "xterm-256color"} {
 		ti := *terminfo.VerifEntry(name)
 		tw.Emit(trace.Ev{"ev": "Reset"})
-		tw.Emit(trace.Ev{"ev": "Config", "term": name, "mode": "chunk"})
+		g, err := newGen(rand.New(rand.NewSource(1)), name)
+		if err != nil {
+			return err
+		}
+		tw.Emit(g.chunkConfig(name, alphabet))
 		var rec func(prefix []byte)
 		rec = func(prefix []byte) {
 			if len(prefix) > 0 {
